@@ -323,6 +323,11 @@ static ASMJIT_FAVOR_SIZE Error validate(InstDB::Mode mode, const BaseInst& inst,
 
         // Validate AVX-512 broadcast {1tox}.
         if (m.has_broadcast()) {
+          // Only instructions that have an AVX-512 form with a broadcastable source can use it.
+          if (ASMJIT_UNLIKELY(!common_info.has_avx512_bcst())) {
+            return make_error(Error::kInvalidBroadcast);
+          }
+
           if (mem_size != 0) {
             // If the size is specified it has to match the broadcast size.
             if (ASMJIT_UNLIKELY(common_info.has_avx512_bcst32() && mem_size != 4)) {
